@@ -27,7 +27,9 @@ def grid():
                  (2147483647, 2147483646), (2147483646, 2147483645), (-2147483647, 2147483646), (2147483645, 2147483646), (-2147483648, 2147483647),
                  (-2147483648, 3),
                  # components beyond 2^24: f32(n)/f32(d) and the correctly rounded quotient may differ
-                 (16777217, 5), (33554433, 7), (-16777219, 3)]:
+                 (16777217, 5), (33554433, 7), (-16777219, 3),
+                 # written denominators beyond 2^31 (the lexer admits them up to 2^32-1) that reduce into the exact range
+                 (2, 4294967294), (2147483647, 4294967294), (6, 4294967292), (3, 4294967295), (-4, 4294967292)]:
         g.append(("%d/%d" % (a, b), Fraction(a, b), {"ratio_literal": True}))
     computed = [("(/ 1 -2)", Fraction(-1, 2)), ("(+ 1/2 1/2)", Fraction(1)), ("(- 1/2)", Fraction(-1, 2)), ("(/ 6 4)", Fraction(3, 2)),
                 ("(/ -6 -4)", Fraction(3, 2)), ("(* 2/3 3/2)", Fraction(1)), ("(/ 7 -7)", Fraction(-1)), ("(- 1/3 1/3)", Fraction(0)),
